@@ -426,6 +426,47 @@ def run(tier, seed, replay=None):
                     res.known_finding(k, "(%s)" % msg)
                 else:
                     res.violation(msg, {"signature": sig, "files": files, "flags": flags, "check_exit": rc, "analyze_has_violation": viol, "stderr": err[-400:]})
+        # ---- SEVERAL targets on one command line: the gate is about all of them, whichever is named first ("the same violations that pyscn analyze
+        # reports for the same files") -----------------------------------------------------------------------------------------------------------------
+        mt_cases = [
+            ("cycle-in-second-target", {"p1/x.py": "def f():\n    return 1\n", "p2/a.py": "import b\nA = 1\n", "p2/b.py": "import a\nB = 2\n"}, ["--select", "deps"], "deps"),
+            ("complex-function-in-second-target", {"p1/x.py": "def f():\n    return 1\n", "p2/big.py": big}, ["--select", "complexity"], "complexity"),
+            ("dead-code-in-second-target", {"p1/x.py": "def f():\n    return 1\n", "p2/d.py": "def t(a):\n    return a\n    a = 1\n"}, ["--select", "deadcode"], "deadcode"),
+        ]
+        hist["multi_target_gate_runs"] = 0
+        for title, files, flags, which in mt_cases:
+            froot = os.path.join(tmp, "mt_" + title)
+            for fn, text in files.items():
+                pth = os.path.join(froot, fn)
+                os.makedirs(os.path.dirname(pth), exist_ok=True)
+                with open(pth, "w") as f:
+                    f.write(text)
+            for targets in (["p1", "p2"], ["p2", "p1"]):
+                rc, out, err = C.pyscn(["check"] + flags + targets, cwd=froot)
+                rc2, data, err2 = C.pyscn_json(targets, froot, extra=["--select", which, "--min-complexity", "1"])
+                nruns += 2
+                hist["multi_target_gate_runs"] += 1
+                if data is None:
+                    res.violation("analyze produced no report on the several-targets case %s: %s" % (title, err2[-200:]), {"files": files, "targets": targets})
+                    continue
+                if which == "deps":
+                    viol = ((data["system"]["DependencyAnalysis"].get("CircularDependencies") or {}).get("TotalCycles") or 0) > 0
+                elif which == "complexity":
+                    viol = any(f["Metrics"]["Complexity"] > 10 for f in data["complexity"]["Functions"] or [])
+                else:
+                    viol = any(x["severity"] == "critical" for fl in (data["dead_code"].get("files") or []) for fn_ in fl["functions"] for x in fn_["findings"])
+                nontrivial.add("mt|" + title)
+                if not viol:
+                    res.violation("harness: `analyze %s` does not report the planted violation of the several-targets case %s" % (" ".join(targets), title), {"files": files, "targets": targets})
+                    continue
+                if rc == 0:
+                    sig = {"kind": "check-vs-analyze-targets", "case": title}
+                    k = C.classify(PID, sig)
+                    msg = "C19: `pyscn check %s %s` exits 0, but `pyscn analyze` on the same targets reports a gated violation (%s)" % (" ".join(flags), " ".join(targets), title)
+                    if k:
+                        res.known_finding(k, "(%s)" % msg)
+                    else:
+                        res.violation(msg, {"signature": sig, "files": files, "flags": flags, "targets": targets, "check_exit": rc, "stderr": err[-400:]})
         # ---- "explicit flag, else config, else 10" when the configuration is DISCOVERED (no --config): the configuration of the checked project is
         # the file found from the target directory upwards (the one `analyze` reads for the same target).  Layouts in which this is unambiguous
         # (at most one file on the way up) but which hold FURTHER configuration files that are not the project's: in sub-directories of the target
